@@ -128,8 +128,9 @@ LocalName(home, n, b) == \/ home \in {"F1", "F2"} /\ n \in lnames
 Lex(home, n, b) == IF LocalName(home, n, b) THEN b[home][n] ELSE b["M"][n]
 
 (* ---- values ---------------------------------------------------------------------- *)
-Rec(k, c, loc, o) == [k |-> k, c |-> c, loc |-> loc, o |-> o]     \* o: the route that produced the referent
-NoRec == Rec("none", 0, FALSE, "")
+Rec(k, c, loc, o, w) == [k |-> k, c |-> c, loc |-> loc, o |-> o, w |-> w]
+   \* o, w (attribution only): the route that produced the referent, the callable whose check did
+NoRec == Rec("none", 0, FALSE, "", 0)
 Atom(t, c) == [t |-> t, c |-> c]
 NoneAtom == Atom("none", 0)
 Unrel == Atom("unrel", 0)                  \* instance of an unrelated, differently named class
@@ -157,9 +158,9 @@ DecoStr(home, n, b) ==
   LET special == h = "Self" /\ ~IsCD
       found == IF GlobalFirst THEN (IF b[home][n] # 0 THEN b[home][n] ELSE b["M"][n])
                               ELSE Lex(home, n, b)
-  IN IF special THEN Rec("proxy", 0, FALSE, "")
-     ELSE IF found # 0 THEN Rec("cap", found, FALSE, IF found = Lex(home, n, b) THEN "cap" ELSE "capglobal")
-     ELSE Rec("proxy", 0, home # "M" /\ ~IsCD, "")
+  IN IF special THEN Rec("proxy", 0, FALSE, "", 0)
+     ELSE IF found # 0 THEN Rec("cap", found, FALSE, IF found = Lex(home, n, b) THEN "cap" ELSE "capglobal", 0)
+     ELSE Rec("proxy", 0, home # "M" /\ ~IsCD, "", 0)
 
 NewFn(home, b, ready) ==
   [dec |-> TRUE, ready |-> ready, home |-> home, alias |-> FALSE,
@@ -169,13 +170,13 @@ NewFn(home, b, ready) ==
 
 (* ---- call time: BeartypeForwardRefMeta.__resolved_hint_beartype__ ------------------ *)
 OtherAct(hm) == IF hm = "F1" THEN "F2" ELSE IF hm = "F2" THEN "F1" ELSE hm
-Resolve(r, hm, n, b) ==
+Resolve(r, hm, n, b, f) ==
   IF r.k \in {"cap", "pin", "fake"} THEN [res |-> r, ok |-> TRUE, via |-> r.o]       \* captured / cached
   ELSE IF r.k = "failed" THEN [res |-> r, ok |-> FALSE, via |-> "cachedfailure"]
   ELSE
     LET g == b["M"][n]
-        fail == [res |-> IF CacheFailure THEN Rec("failed", 0, r.loc, "") ELSE r, ok |-> FALSE, via |-> "unresolved"]
-        Pin(c, v) == [res |-> Rec("pin", c, r.loc, v), ok |-> TRUE, via |-> v]
+        fail == [res |-> IF CacheFailure THEN Rec("failed", 0, r.loc, "", f) ELSE r, ok |-> FALSE, via |-> "unresolved"]
+        Pin(c, v) == [res |-> Rec("pin", c, r.loc, v, f), ok |-> TRUE, via |-> v]
     IN \* phase "global": import_module_attr_or_sentinel(name, module)
        IF (GlobalFirst \/ ~LocalName(hm, n, b)) /\ g # 0 THEN Pin(g, "global")
        \* no parent code object: decorated at module level (or through its class)
@@ -185,7 +186,7 @@ Resolve(r, hm, n, b) ==
        ELSE IF FrameByCode /\ hm \in {"F1", "F2"} /\ Live(OtherAct(hm))
             THEN (IF b[OtherAct(hm)][n] # 0 THEN Pin(b[OtherAct(hm)][n], "otherframe") ELSE fail)
        \* phase "fake" (0.23.0)  /  the bindings of the decorating activation (intended)
-       ELSE IF FakeFallback THEN [res |-> Rec("fake", 0, r.loc, "fake"), ok |-> TRUE, via |-> "fake"]
+       ELSE IF FakeFallback THEN [res |-> Rec("fake", 0, r.loc, "fake", f), ok |-> TRUE, via |-> "fake"]
        ELSE IF b[hm][n] # 0 THEN Pin(b[hm][n], "cell") ELSE fail
 
 \* isinstance(atom, referent)
@@ -203,24 +204,24 @@ Early(obj) == IF obj.shape # Shape THEN "violation"
               ELSE IF h = "opt" /\ obj.a.t = "none" THEN "accept"
               ELSE "go"
 
-RECURSIVE CheckSeq(_, _, _, _, _)
-CheckSeq(lv, rm, hm, b, vias) ==
+RECURSIVE CheckSeq(_, _, _, _, _, _)
+CheckSeq(lv, rm, hm, b, vias, f) ==
   IF lv = <<>> THEN [out |-> "accept", res |-> rm, vias |-> vias]
   ELSE LET n == lv[1][1]
            a == lv[1][2]
-           r == Resolve(rm[n], hm, n, b)
+           r == Resolve(rm[n], hm, n, b, f)
            rm2 == [rm EXCEPT ![n] = r.res]
            v2 == Append(vias, r.via)
        IN IF ~r.ok THEN [out |-> "fwdref", res |-> rm2, vias |-> v2]
           ELSE IF ~Match(r.res, n, a) THEN [out |-> "violation", res |-> rm2, vias |-> v2]
-          ELSE CheckSeq(Tail(lv), rm2, hm, b, v2)
+          ELSE CheckSeq(Tail(lv), rm2, hm, b, v2, f)
 
 \* where the proxies of callable f live (SharedProxy: in the first activation's hint object)
 \* (observed: only when the whole annotation is one string, not for list['N'])
 Store(f, fm) == IF fn[f].alias /\ fm # "inner" THEN 1 ELSE f
 Check(f, fm, obj) ==
   IF Early(obj) # "go" THEN [out |-> Early(obj), res |-> fn[Store(f, fm)].res[fm], vias |-> <<>>]
-  ELSE CheckSeq(Leaves(obj), fn[Store(f, fm)].res[fm], fn[f].home, bind, <<>>)
+  ELSE CheckSeq(Leaves(obj), fn[Store(f, fm)].res[fm], fn[f].home, bind, <<>>, f)
 
 \* the evaluated variant: Python captured the classes when the def statement ran
 EvOk(f) == \A n \in HN : fn[f].evcap[n] # 0
@@ -365,8 +366,11 @@ Replay(i, b, cl, f2) ==
        ELSE Replay(i + 1, b, cl,
                    [NewFn("F2", b, TRUE) EXCEPT !.alias =
                       /\ SharedProxy /\ h \notin {"N", "Self"}
-                      /\ \A n \in HN : /\ DecoStr("F2", n, b).k = "proxy"
-                                       /\ fn[1].res["str"][n].k # "cap"])
+                      \* equal repr: every name is a proxy in both hints, or the very same class in both
+                      /\ \A n \in HN : LET d2 == DecoStr("F2", n, b)
+                                           r1 == fn[1].res["str"][n]
+                                       IN \/ d2.k = "proxy" /\ r1.k # "cap"
+                                          \/ d2.k = "cap" /\ r1.k = "cap" /\ d2.c = r1.c])
 BodyDefs == Cardinality({i \in 1..Len(body) : body[i].k = "def"})
 EnterF2 == /\ Tick /\ pc = "M1" /\ IsFun /\ NDefs + BodyDefs <= MaxDefs
            /\ \A f \in 1..2 : \A n \in HN : ~fn[f].maybe[n]
@@ -375,6 +379,8 @@ EnterF2 == /\ Tick /\ pc = "M1" /\ IsFun /\ NDefs + BodyDefs <= MaxDefs
            /\ pc' = "F2" /\ last' = Stmt("EnterF2", "F2", "")
            /\ UNCHANGED <<p, h, lnames, body, ncalls>>
 
+\* the proxies of f are also those of the other activation's closure
+SharedWith(f) == fn[f].alias \/ (f = 1 /\ fn[2].alias)
 \* attribution (not part of any property): which route gave the i-th name looked at by this
 \* call a referent other than the class C07 expects
 Blame(f, fm, obj, r, i) ==
@@ -383,7 +389,7 @@ Blame(f, fm, obj, r, i) ==
            x == r.res[n]
        IN IF x.k = "fake" THEN "fake"
           ELSE IF x.k \in {"cap", "pin"} /\ x.c # Env(f, n)
-               THEN (IF fn[f].alias /\ fm # "inner" THEN "sharedproxy" ELSE x.o)
+               THEN (IF x.w \notin {0, f} THEN "sharedproxy" ELSE x.o)
           ELSE IF x.k \in {"proxy", "failed"} /\ Env(f, n) # 0 /\ i = Len(r.vias) /\ r.out = "fwdref"
                THEN (IF x.k = "failed" THEN "cachedfailure" ELSE "unresolved")
           ELSE ""
@@ -401,7 +407,7 @@ Call(f, obj) ==
                     got |-> [str |-> rs["str"].out, post |-> rs["post"].out, inner |-> rs["inner"].out, ev |-> EvOut(f, obj)],
                     want |-> Want(f, obj),
                     via |-> [a |-> IF Len(vs) >= 1 THEN vs[1] ELSE "", b |-> IF Len(vs) >= 2 THEN vs[2] ELSE ""],
-                    evok |-> EvAll, shared |-> fn[f].alias,
+                    evok |-> EvAll, shared |-> SharedWith(f),
                     blame |-> [fm \in StrForms |-> [a |-> Blame(f, fm, obj, rs[fm], 1), b |-> Blame(f, fm, obj, rs[fm], 2)]]]
   /\ UNCHANGED <<p, h, lnames, pc, bind, cls, body>>
 
